@@ -1371,3 +1371,88 @@ CONTROLS['C14'] += [
       "        if include_traits:\n            ret[ps.resource_provider.uuid]['traits'] = ps.traits",
       "        ret[ps.resource_provider.uuid]['traits'] = ps.traits", 'R14.6'),
 ]
+
+UT = 'placement/util.py'
+CONTROLS['C13'] += [
+    M('c13-strip-wrong-offset', UT,
+      "        forbidden = set(value[4:].split(','))",
+      "        forbidden = set(value[3:].split(','))", 'R13.6'),
+    M('c13-not-in-feeds-required', UT,
+      "    if value.startswith('!in:'):\n        forbidden = set(value[4:].split(','))",
+      "    if value.startswith('!in:'):\n        required = set(value[4:].split(','))",
+      'R13.6'),
+    M('c13-prefix-order', UT,
+      "    if value.startswith('!in:'):\n        forbidden = set(value[4:].split(','))\n"
+      "    elif value.startswith('!'):\n        forbidden = set([value[1:]])\n",
+      "    if value.startswith('!'):\n        forbidden = set([value[1:]])\n"
+      "    elif value.startswith('!in:'):\n        forbidden = set(value[4:].split(','))\n",
+      'R13.6'),
+    M('c13-member-of-last-only', UT,
+      "        if required:\n            required_aggs.append(required)",
+      "        if required:\n            required_aggs = [required]", 'R13.6'),
+    M('c13-required-traits-replaced', UT,
+      "        required_traits += rts\n", "        required_traits = rts\n", 'R13.6'),
+    M('c13-join-on-wrong-column', RCX,
+      "            rp_tbl.c.id == rpa_tbl.c.resource_provider_id,\n            rpa_tbl.c.aggregate_id.in_(agg_ids))",
+      "            rp_tbl.c.id == rpa_tbl.c.aggregate_id,\n            rpa_tbl.c.aggregate_id.in_(agg_ids))",
+      'R13.5'),
+    M('c13-any-trait-no-filter', RCX,
+      "    sel = sel.where(rptt.c.trait_id.in_(traits))\n", "", 'R13.5'),
+]
+CONTROLS['C09'] += [
+    M('c09-subtree-children-only', RP,
+      "            subtree.extend(\n                child_rp.get_subtree(context, rp_uuid_to_child_rps))",
+      "            subtree.append(child_rp)", 'R9.7'),
+    M('c09-subtree-without-self', RP,
+      "        subtree = [self]\n", "        subtree = []\n", 'R9.7'),
+    M('c09-root-join-on-parent', RCX,
+      "    me_to_root = sa.join(me, root, me.c.root_provider_id == root.c.id)",
+      "    me_to_root = sa.join(me, root, me.c.parent_provider_id == root.c.id)",
+      'R9.6'),
+]
+CONTROLS['C12'] += [
+    M('c12-update-needs-both', HU,
+      "        if (project.external_id != consumer.project.external_id or\n"
+      "                user.external_id != consumer.user.external_id):",
+      "        if (project.external_id != consumer.project.external_id and\n"
+      "                user.external_id != consumer.user.external_id):", 'R12.7'),
+    M('c12-type-update-dropped', HU,
+      "        if consumer_type_id and consumer_type_id != consumer.consumer_type_id:\n"
+      "            LOG.debug(\"Supplied consumer type for consumer %s was \"\n"
+      "                      \"different than existing record. Updating \"\n"
+      "                      \"consumer record.\", consumer.uuid)\n"
+      "            consumer.consumer_type_id = consumer_type_id\n            consumer.update()\n",
+      "", 'R12.7'),
+    M('c12-cleanup-join-dropped-null', O + 'consumer.py',
+      "        CONSUMER_TBL.c.uuid == _ALLOC_TBL.c.consumer_id)\n    subq = sa.select(CONSUMER_TBL.c.uuid).select_from(cons_to_allocs_join)",
+      "        CONSUMER_TBL.c.id == _ALLOC_TBL.c.id)\n    subq = sa.select(CONSUMER_TBL.c.uuid).select_from(cons_to_allocs_join)",
+      'R12.'),
+]
+CONTROLS['C05'] += [
+    reuse('C06', 'c06-drop-generation-conjunct', 'c05-x', 'R5.', ) if False else
+    M('c05-reshape-uses-cached-object', O + 'reshaper.py',
+      "        affected_providers[rp.uuid] = rp\n",
+      "        rp = affected_providers.setdefault(rp.uuid, rp)\n", 'R5.4'),
+    M('c05-refresh-after-save', RP,
+      "    def set_traits(self, traits):",
+      "    def refresh(self):\n        self._from_db_object(\n            self._context, self, _get_provider_by_uuid(self._context, self.uuid))\n\n"
+      "    def set_traits(self, traits):", 'R5.4'),
+]
+CONTROLS['C06'] += [
+    M('c06-update-refreshes-object', O + 'consumer.py',
+      "            ctx.session.execute(upd_stmt)\n        _update_in_db(self._context)",
+      "            ctx.session.execute(upd_stmt)\n            self._from_db_object(\n"
+      "                ctx, self, _get_consumer_by_uuid(ctx, self.uuid))\n        _update_in_db(self._context)",
+      'R6.6'),
+    M('c06-generation-assigned-in-handler', HU,
+      "            consumer.project = project\n            consumer.user = user\n",
+      "            consumer.project = project\n            consumer.user = user\n"
+      "            consumer.generation = consumer_obj.Consumer.get_by_uuid(\n"
+      "                consumer._context, consumer.uuid).generation\n", 'R6.6'),
+]
+CONTROLS['C04'] += [
+    M('c04-cleanup-delete-conditional', O + 'consumer.py',
+      "    del_stmt = CONSUMER_TBL.delete().where(CONSUMER_TBL.c.id == consumer.id)",
+      "    del_stmt = CONSUMER_TBL.delete().where(sa.and_(\n        CONSUMER_TBL.c.id == consumer.id,\n"
+      "        CONSUMER_TBL.c.generation == consumer.generation))", 'R4.6'),
+]
